@@ -249,7 +249,7 @@ PROPS = {
     },
     "C08": {
         "extra": design_pegcore_for("C08"),
-        "families": ["exc", "act", "core"],
+        "families": ["exc", "act", "core", "cov"],
         "must_count": ["hook", "xcs", "cases"],
         "nontrivial_key": "hook",
         "level": "a phase automaton per open invocation (entered, started, applied, ended by success/failure/unwind) is advanced by TLC "
